@@ -1,4 +1,6 @@
 import Orx.IW.Outs
+import Orx.IW.HB
+import Orx.Generated.Orderings
 /-! # C07 Wrapped iterator is used exclusively and in order -/
 namespace Orx.Props.C07
 open Orx Orx.IW
@@ -27,5 +29,39 @@ theorem calls_in_position_order (s : Script) (hf : Fused s) (ps : Nat → List R
     (hnn : NoNoneBefore s (run s σ (init ps)).P) :
     (run s σ (init ps)).P = b + ((run s σ (init ps)).th t).pc.acc.length :=
   (inv_reach s hf ps hok σ hW).pcs t b n hcs htk hnn
+
+/-- the orderings the current source uses on the `yielded` counter (extracted on every run) -/
+def srcOrds : Ords :=
+  { yLoad := Orx.Generated.Orderings.counterCurrent
+    yFaa := Orx.Generated.Orderings.counterFetchAdd }
+
+/-- obligation on the source: `AtomicCounter::current` acquires … -/
+theorem ord_current_acquire : srcOrds.yLoad.isAcq = true := by decide
+
+/-- … and `AtomicCounter::fetch_and_add` / `fetch_and_increment` release (and acquire). -/
+theorem ord_faa_release : srcOrds.yFaa.isRel = true ∧ Orx.Generated.Orderings.counterFetchInc.isRel = true := by decide
+
+/-- **Happens-before, all schedules, with the orderings of the current source**: every entry into and exit from
+the wrapped iterator's `next()` happens-after the previous use of the iterator (C11 release/acquire through the
+`yielded` counter; vector clocks over SC interleavings). No data race on the `UnsafeCell<Iter>`. -/
+theorem hb_chain (s : Script) (hf : Fused s) (ps : Nat → List Req) (hok : ∀ t, ∀ r ∈ ps t, ReqOk r) (σ : List Nat)
+    (hW : (run s σ (init ps)).R < W) (t : Nat)
+    (huse : ∃ r b acc, ((hrun srcOrds s σ (hinit ps)).core.th t).pc = .cs r b acc ∨
+                       ((hrun srcOrds s σ (hinit ps)).core.th t).pc = .ins r b acc) :
+    (hrun srcOrds s σ (hinit ps)).last.le ((hrun srcOrds s σ (hinit ps)).clk t) :=
+  no_race srcOrds ord_current_acquire ord_faa_release.1 s hf ps hok σ hW t huse
+
+/-- the bookkeeping layer does not change the protocol: its core is the plain run -/
+theorem hb_layer_is_conservative (s : Script) (ps : Nat → List Req) (σ : List Nat) :
+    (hrun srcOrds s σ (hinit ps)).core = run s σ (init ps) := hrun_core srcOrds s σ (hinit ps)
+
+/-- why the ordering matters (the defect fixed by 5ddb4aa): with a relaxed load the entering thread joins
+nothing; 2 threads, one `next` each: thread 1 enters `next()` without thread 0's last use in its past. -/
+theorem C07_relaxed_load_races :
+    let o : Ords := { yLoad := .relaxed, yFaa := .acqrel }
+    let s : Script := fun i => if i < 2 then .some (i + 7) else .none
+    let h := hrun o s [0,0,0,0,0,0,0, 1,1,1,1] (hinit fun t => if t < 2 then [.single false] else [])
+    (∃ acc, (h.core.th 1).pc = .cs (.single false) 1 acc) ∧ ¬ (h.last 0 ≤ h.clk 1 0) := by
+  refine ⟨⟨[], by decide⟩, by decide⟩
 
 end Orx.Props.C07
